@@ -7,6 +7,9 @@ pub enum Case {
     Construct(Ctor),
     Size(Ctor),
     Write { shx: bool, ctors: Vec<Ctor> },
+    /// like Write, through the history route `route` (finalize calls and rejected writes interleaved);
+    /// the model answers with the plain files: they must be identical
+    WriteH { route: u64, shx: bool, ctors: Vec<Ctor> },
     Whist { shx: bool, ending: String, ops: Vec<WOp> },
     Wfault { shx: bool, dest: String, fault: Fault, persistent: bool, ops: Vec<WOp> },
     Read { target: String, shp: Vec<u8>, shx: Option<Vec<u8>> },
@@ -22,6 +25,8 @@ pub enum Case {
     DbfHist { base: String, ops: Vec<crate::extra::PairOp> },
     /// C20: geo-types / geo-traits conversions
     Geo(crate::extra::GeoCase),
+    /// the complete Reader (shapes + rows) driven by seek / iterate operations; `rows` rows in the table
+    Prhist { shp: Vec<u8>, shx: Vec<u8>, rows: usize, ops: Vec<(String, usize)> },
     /// a scenario evaluated by an oracle only (not part of the correspondence): name and arguments
     Scenario(Vec<String>),
     Raw(String),
@@ -33,6 +38,14 @@ pub fn show_case(c: &Case) -> String {
         Case::Size(c) => format!("size {}", show_ctor(c)),
         Case::Write { shx, ctors } => {
             let mut s = format!("write {} {}", *shx as u8, ctors.len());
+            for c in ctors {
+                s.push(' ');
+                s += &show_ctor(c);
+            }
+            s
+        }
+        Case::WriteH { route, shx, ctors } => {
+            let mut s = format!("writeh {} {} {}", route, *shx as u8, ctors.len());
             for c in ctors {
                 s.push(' ');
                 s += &show_ctor(c);
@@ -67,6 +80,7 @@ pub fn show_case(c: &Case) -> String {
         Case::SpecDecode { shp, .. } => format!("specdecode {}", hex(shp)),
         Case::DbfHist { base, ops } => format!("dbfhist {} {} {}", base, ops.len(), ops.iter().map(|o| o.tok()).collect::<Vec<_>>().join(" ")).trim_end().to_string(),
         Case::Geo(g) => crate::extra::show_geocase(g),
+        Case::Prhist { shp, shx, rows, ops } => format!("prhist {} {} {} {} {}", hex(shp), hex(shx), rows, ops.len(), ops.iter().map(|(o, k)| format!("{} {}", o, k)).collect::<Vec<_>>().join(" ")).trim_end().to_string(),
         Case::Scenario(a) => format!("scenario {}", a.join(" ")),
         Case::Raw(s) => s.clone(),
     }
@@ -102,6 +116,12 @@ pub fn parse_case(line: &str) -> Option<Case> {
             let shx = t.nat()? == 1;
             let n = t.nat()?;
             Case::Write { shx, ctors: (0..n).map(|_| t.ctor()).collect::<Option<_>>()? }
+        }
+        "writeh" => {
+            let route = t.next()?.parse().ok()?;
+            let shx = t.nat()? == 1;
+            let n = t.nat()?;
+            Case::WriteH { route, shx, ctors: (0..n).map(|_| t.ctor()).collect::<Option<_>>()? }
         }
         "whist" => {
             let shx = t.nat()? == 1;
@@ -161,6 +181,18 @@ pub fn parse_case(line: &str) -> Option<Case> {
             }
             Case::DbfHist { base, ops }
         }
+        "prhist" => {
+            let shp = unhex(t.next()?)?;
+            let shx = unhex(t.next()?)?;
+            let rows = t.nat()?;
+            let n = t.nat()?;
+            let mut ops = vec![];
+            for _ in 0..n {
+                let o = t.next()?.to_string();
+                ops.push((o, t.nat()?));
+            }
+            Case::Prhist { shp, shx, rows, ops }
+        }
         "scenario" => {
             let mut a = vec![];
             while let Some(x) = t.next() {
@@ -189,6 +221,7 @@ pub fn run_case(c: &Case) -> String {
         Case::Construct(c) => v_construct(c),
         Case::Size(c) => v_size(c),
         Case::Write { shx, ctors } => v_write(*shx, ctors),
+        Case::WriteH { route, shx, ctors } => with_route(*route, || v_write(*shx, ctors)),
         Case::Whist { shx, ending, ops } => v_whist(*shx, ending, ops),
         Case::Wfault { shx, dest, fault, persistent, ops } => v_wfault(*shx, dest, *fault, *persistent, ops),
         Case::Read { target, shp, shx } => v_read(target, shp, shx.as_deref()),
@@ -199,6 +232,7 @@ pub fn run_case(c: &Case) -> String {
         Case::SpecDecode { expected, .. } => expected.clone(),
         Case::DbfHist { base, ops } => crate::extra::v_dbfhist(base, ops),
         Case::Geo(g) => crate::extra::run_geocase(g),
+        Case::Prhist { shp, shx, rows, ops } => crate::extra::v_prhist(shp, shx, *rows, ops),
         Case::Scenario(_) => "scenario".into(),
         Case::Raw(_) => "unsupported".into(),
     }
